@@ -556,6 +556,23 @@ def build(sc):
     gl = sc['graphs'] if len(sc['graphs']) > 1 else sc['graphs'] * nobs
     if sc['alg']['kind'] in ('dynamic', 'greedy') or sc.get('static'):
         model = StubStatic(graphs, sc['assign'], sc['ests'])
+    elif sc.get('real_wf'):
+        # the real BatchPlanning._workflow_to_nx parses real workflow files (node-link JSON) written next to the configuration;
+        # sc['_model'] lets a second Simulation be given the planning object of an earlier one (as a sweep script would)
+        model = sc.get('_model') or BatchPlanning('batch')
+        d = os.path.join(WORK, f'rw_{os.getpid()}')          # per process: shards run side by side and write different graphs
+        os.makedirs(d, exist_ok=True)
+        own = os.path.join(d, os.path.basename(cfgpath))
+        if not os.path.exists(own):
+            json.dump(json.load(open(cfgpath)), open(own, 'w'))
+        cfgpath = own
+        for i in range(nobs):
+            wf = os.path.join(os.path.dirname(cfgpath), f'wf_o{i + 1}.json')
+            tmp = wf + f'.{os.getpid()}'
+            json.dump({'graph': nx.readwrite.node_link_data(graphs[i](), edges='edges')}, open(tmp, 'w'))
+            os.replace(tmp, wf)
+        if all(g.get('durs') is not None for g in gl):
+            STATE['durs'] = [g['durs'] for g in gl]
     else:
         model = BatchPlanning('batch')
         model._workflow_to_nx = lambda wf: graphs[int(os.path.basename(wf)[4:-5]) - 1]()
